@@ -26,7 +26,7 @@ FMT = '%Y-%m-%dT%H:%M:%S'
 def gen(rng, n):
     scns, metas = [], []
     for i in range(n):
-        lay = scen.Layout(rng, nested=False, home_on_own_volume=False, xdg='unset')
+        lay = scen.Layout(rng, nested=False, home_on_own_volume=False, xdg=rng.choice(['unset', 'unset', 'empty', 'set']))
         dirs = [(lay.home_trash, 'home')]
         for v in lay.vols:
             if lay.top[v][1] == 'dir':
@@ -103,14 +103,16 @@ def gen(rng, n):
         step = {'cmd': 'empty', 'argv': argv + ['-f'], 'env': {'TRASH_DATE': NOW.strftime(FMT)}, 'listdir': rng.choice(['sorted', 'reverse'])}
         if rng.random() < 0.2:
             step['env'] = {}
-            step['now'] = [NOW.year, NOW.month, NOW.day, NOW.hour, NOW.minute, NOW.second, 0]
+            # the real clock has a sub-second part: an entry dated exactly now - DAYS at the full second IS older than the limit then
+            micro = rng.choice([0, 0, 750000, 1])
+            step['now'] = [NOW.year, NOW.month, NOW.day, NOW.hour, NOW.minute, NOW.second, micro]
         if rng.random() < 0.3:
             # a time zone with daylight saving whose switch (third Sunday of February) lies between most limits and now: deletion dates
             # are naive local times and the rule is calendar arithmetic on them - an hour that the clocks skipped changes nothing
             step['env'] = dict(step['env'], TZ=rng.choice(['XST5XDT,M2.3.0,M11.1.0', 'XST-1XDT,M2.3.0/2,M10.5.0/3', 'UTC0']))
         scns.append(lay.scenario([step], extra=nodes + scen.canary()))
-        metas.append({'days': days, 'ents': ents, 'orphans': orphans})
-        scns[-1]['judge_meta'] = {'days': days, 'ents': ents, 'orphans': [list(x) for x in orphans]}     # so that a replay judges the same entries
+        metas.append({'days': days, 'ents': ents, 'orphans': orphans, 'micro': (step.get('now') or [0] * 7)[6]})
+        scns[-1]['judge_meta'] = {'days': days, 'ents': ents, 'orphans': [list(x) for x in orphans], 'micro': metas[-1]['micro']}     # so that a replay judges the same entries
     return scns, metas
 
 
@@ -138,7 +140,7 @@ def judge(run, scn, meta, res, section='state'):
         if days is None:
             must_go = True
         else:
-            must_go = d is not None and d < NOW - datetime.timedelta(days=days)
+            must_go = d is not None and d < NOW + datetime.timedelta(microseconds=meta.get('micro') or 0) - datetime.timedelta(days=days)
         rel = 'none' if d is None else ('old' if must_go else 'new')
         if must_go and ia is not None:
             run.fail('oracle', 'an entry older than DAYS days (or any entry without DAYS) was not removed whole', dict(case, entry=e, left=str(ia)[:200]),
@@ -196,6 +198,6 @@ def replay(run, payload):
     a = [x for x in scn['steps'][0]['argv'] if x.isdigit()]
     jm = scn.get('judge_meta')
     if jm:
-        judge(run, scn, {'days': jm['days'], 'ents': jm['ents'], 'orphans': [tuple(x) for x in jm['orphans']]}, res)
+        judge(run, scn, {'days': jm['days'], 'ents': jm['ents'], 'orphans': [tuple(x) for x in jm['orphans']], 'micro': jm.get('micro', 0)}, res)
         return
     judge(run, scn, {'days': int(a[0]) if a else None, 'ents': ents, 'orphans': []}, res)
